@@ -983,11 +983,18 @@ func boolLean(b bool) string {
 func main() {
 	flag.Parse()
 	if *trOnly != "" {
-		i := strings.LastIndex(*trOnly, ":")
-		if i < 0 {
-			die("-translate wants dir:func1,func2,…")
+		// groups separated by ";", each `[namespace=]dir:func1,func2,…`, translated in order
+		for _, grp := range strings.Split(*trOnly, ";") {
+			ns := ""
+			if j := strings.Index(grp, "="); j >= 0 {
+				ns, grp = grp[:j], grp[j+1:]
+			}
+			i := strings.LastIndex(grp, ":")
+			if i < 0 {
+				die("-translate wants [namespace=]dir:func1,func2,…")
+			}
+			fmt.Print(translateLoopFuncsNS(load(grp[:i]), ns, strings.Split(grp[i+1:], ",")...))
 		}
-		fmt.Print(translateLoopFuncs(load((*trOnly)[:i]), strings.Split((*trOnly)[i+1:], ",")...))
 		return
 	}
 	if err := os.MkdirAll(*out, 0o755); err != nil {
